@@ -360,6 +360,14 @@ pub fn judge(ctx: &mut Ctx, cfg: &Cfg, l: &Launch, what: &str, must_fail: Option
         ctx.violation(&format!("C07/panic/{}", what), "Popen::create panicked in the parent", witness(cfg, l, J::s(p)));
         return;
     }
+    if ilog::child_exit_handlers() > 0 {
+        ctx.violation(
+            &format!("C07/forked-child-runs-the-callers-exit-handlers/{}", what),
+            "the forked child left through exit() and ran the caller's exit-time handlers in a copy of the caller, instead of reporting the failure and leaving at once",
+            witness(cfg, l, J::Null),
+        );
+        return;
+    }
     if l.cert {
         ctx.violation(&format!("C07/hang/{}", what), "Popen::create deadlocked", witness(cfg, l, J::Null));
         return;
